@@ -381,6 +381,7 @@ func (w *World) sync() {
 	}
 	w.groups = append(w.groups, w.cur)
 	w.cur = nil
+	connProgress(w.Script())
 	w.snaps = append(w.snaps, w.snapTerm())
 }
 
@@ -598,6 +599,16 @@ func (w *World) Peer(frames [][]byte, cuts [][]int) {
 		}
 		w.T.Inject(f, c)
 	}
+	w.sync()
+}
+
+// PeerSplit makes the first k octets of a frame readable, lets the system come
+// to rest (Watch waits inside the frame; no event of the model), then the rest.
+func (w *World) PeerSplit(f []byte, k int) {
+	w.T.Inject(f[:k], nil)
+	w.sync()
+	w.force(fmt.Sprintf("PeerFrame (frame_item %s %s)", coqHex(f), natList([]int{k})))
+	w.T.Inject(f[k:], nil)
 	w.sync()
 }
 
